@@ -7,6 +7,7 @@
 EXTENDS Naturals, Integers, Sequences, FiniteSets, TLC, Json, IOUtils
 H == INSTANCE Header WITH Variant <- "code"
 Y == INSTANCE YaccParse
+G == INSTANCE AstGrammar
 Rec == ndJsonDeserialize(IOEnv.TRACE)
 VARIABLES l, ndev
 Prop == IF "PROP" \in DOMAIN IOEnv THEN IOEnv.PROP ELSE "C12"
@@ -45,6 +46,19 @@ MAst(a) ==
    precs |-> ToSet(a.precs), parse_param |-> a.parse_param, parse_generics |-> a.parse_generics,
    rules |-> a.rules, prods |-> a.prods, programs |-> a.programs]
 
+\* the grammar object as dumped (total.rs grm_json), normalised
+IGrm(g) ==
+  [nr |-> g.nr, nt |-> g.nt, np |-> g.np,
+   tokens |-> [i \in 1 .. Len(g.tokens) |-> [name |-> Tup(g.tokens[i].name), has_name |-> g.tokens[i].has_name, span |-> P2(g.tokens[i].span),
+                                               prec |-> P2(g.tokens[i].prec), epp |-> Tup(g.tokens[i].epp), has_epp |-> g.tokens[i].has_epp, avoid |-> g.tokens[i].avoid]],
+   rules |-> [i \in 1 .. Len(g.rules) |-> [name |-> Tup(g.rules[i].name), span |-> P2(g.rules[i].span), actiontype |-> IOpt1(g.rules[i].actiontype),
+                                             prods |-> Tup(g.rules[i].prods)]],
+   prods |-> [i \in 1 .. Len(g.prods) |-> [r |-> g.prods[i].r, rhs |-> Tup(g.prods[i].rhs), prec |-> P2(g.prods[i].prec), span |-> P2(g.prods[i].span),
+                                             action |-> IOpt1(g.prods[i].action),
+                                             action_span |-> IF Len(g.prods[i].action_span) = 0 THEN <<>> ELSE P2(g.prods[i].action_span)]],
+   startprod |-> g.startprod, startrule |-> g.startrule, eof |-> g.eof, expect |-> Tup(g.expect), expectrr |-> Tup(g.expectrr),
+   implicit_rule |-> g.implicit_rule, programs |-> IOpt1(g.programs)]
+
 Model(e) ==     \* -> [a, errs, loop]
   LET src == Tup(e.src)
       h == H!Parse(HSrc(e), FALSE)
@@ -65,6 +79,11 @@ Devs(e) ==
   IN IF looped THEN { <<"the transcribed parser does not terminate on this input", 0>> }
      ELSE (IF ia = ma THEN {} ELSE { <<"abstract syntax tree # model", [f \in {g \in DOMAIN ia : ia[g] # ma[g]} |-> <<ia[f], ma[f]>>]>> })
           \cup (IF ierrs \in allowed THEN {} ELSE { <<"errors # model", <<ierrs, allowed>> >> })
+          \* a valid AST: the grammar object made of it (text -> grammar, C10)
+          \cup (IF e.res.grm.built /\ ia = ma /\ ierrs = <<>>
+                THEN LET ig == IGrm(e.res.grm)  mg == G!GrammarOf(m.a, e.kind) IN
+                     IF ig = mg THEN {} ELSE { <<"grammar object # GrammarOf(AST)", [f \in {x \in DOMAIN ig : ig[x] # mg[x]} |-> <<ig[f], mg[f]>>]>> }
+                ELSE IF ierrs = <<>> /\ ~e.res.grm.built THEN { <<"valid AST but no grammar object", 0>> } ELSE {})
 Init == l = 1 /\ ndev = 0
 Next == /\ l <= Len(Rec) /\ l' = l + 1
         /\ LET e == Rec[l]  ds == Devs(e) IN Report(e.id, ds) /\ ndev' = ndev + Cardinality(ds)
